@@ -139,37 +139,9 @@ func (inst *Instance) Run(P *Program, solverName string, timeoutMs int, seed int
 	t0 := time.Now()
 	solver := NewSolver(solverName, timeoutMs, seed, stats)
 	defer solver.Close()
-	inst.in = NewInterner(goldenList(inst.Lang))
-	inst.in.ID("")
-	inst.goldenIDs = map[int][]int{}
-	inst.feasCache = map[string]string{}
-	inst.oblLabels = map[string]int{}
-	inst.reached = map[string]int{}
-	inst.Notes = map[string]int{}
-	inst.Ends = map[string]int{}
-	inst.EndMsgs = map[string]int{}
-	inst.Writes = map[string]bool{}
-	inst.Funcs = map[string]bool{}
-	if inst.MaxFindingsPerLabel == 0 {
-		inst.MaxFindingsPerLabel = 1
-	}
-	if inst.MaxPaths == 0 {
-		inst.MaxPaths = 20000
-	}
-	if inst.MaxWallS == 0 {
-		inst.MaxWallS = instWallBudget
-	}
-	// package initialisation is executed once per instance and snapshotted
-	{
-		x0 := &Exec{inst: inst, P: P, solver: solver, in: inst.in, globals: map[*ssa.Global]*Object{}, externs: map[string]*Object{}, writes: map[string]bool{}, funcsSeen: inst.Funcs}
-		if end := x0.runInit(); end.Kind != "done" {
-			inst.Ends[end.Kind]++
-			inst.EndMsgs[end.Kind+": (package init) "+end.Msg]++
-			inst.WallS = time.Since(t0).Seconds()
-			return
-		}
-		inst.snap = x0.snapshot()
-		inst.Steps += x0.steps
+	if !inst.prepare(P, solver) {
+		inst.WallS = time.Since(t0).Seconds()
+		return
 	}
 	work := [][]Decision{nil}
 	for len(work) > 0 {
@@ -227,6 +199,45 @@ func (inst *Instance) Run(P *Program, solverName string, timeoutMs int, seed int
 		work = append(work, x.alts...)
 	}
 	inst.WallS = time.Since(t0).Seconds()
+}
+
+
+// prepare interns the golden list and executes package initialisation once (heap snapshot).
+func (inst *Instance) prepare(P *Program, solver *Solver) bool {
+	t0 := time.Now()
+	_ = t0
+	inst.in = NewInterner(goldenList(inst.Lang))
+	inst.in.ID("")
+	inst.goldenIDs = map[int][]int{}
+	inst.feasCache = map[string]string{}
+	inst.oblLabels = map[string]int{}
+	inst.reached = map[string]int{}
+	inst.Notes = map[string]int{}
+	inst.Ends = map[string]int{}
+	inst.EndMsgs = map[string]int{}
+	inst.Writes = map[string]bool{}
+	inst.Funcs = map[string]bool{}
+	if inst.MaxFindingsPerLabel == 0 {
+		inst.MaxFindingsPerLabel = 1
+	}
+	if inst.MaxPaths == 0 {
+		inst.MaxPaths = 20000
+	}
+	if inst.MaxWallS == 0 {
+		inst.MaxWallS = instWallBudget
+	}
+	// package initialisation is executed once per instance and snapshotted
+	{
+		x0 := &Exec{inst: inst, P: P, solver: solver, in: inst.in, globals: map[*ssa.Global]*Object{}, externs: map[string]*Object{}, writes: map[string]bool{}, funcsSeen: inst.Funcs}
+		if end := x0.runInit(); end.Kind != "done" {
+			inst.Ends[end.Kind]++
+			inst.EndMsgs[end.Kind+": (package init) "+end.Msg]++
+			return false
+		}
+		inst.snap = x0.snapshot()
+		inst.Steps += x0.steps
+	}
+	return true
 }
 
 func (x *Exec) runInit() (end pathEnd) {
